@@ -32,6 +32,18 @@ def import_repo():
     return pytenet
 
 
+def _json_default(o):
+    """numpy scalars that slipped into a trace record (integers, booleans, floats) are written as their Python values"""
+    import numpy as np
+    if isinstance(o, np.integer):
+        return int(o)
+    if isinstance(o, np.bool_):
+        return bool(o)
+    if isinstance(o, np.floating):
+        return float(o)
+    raise TypeError(f'Object of type {o.__class__.__name__} is not JSON serializable')
+
+
 def digest(obj):
     return hashlib.sha256(json.dumps(obj, sort_keys=True, default=str).encode()).hexdigest()[:16]
 
@@ -123,7 +135,7 @@ class Ctx:
         Returns dict tid -> list of reject diagnostics for the traces that were not accepted."""
         path = os.path.join(self.work, f'{tag}.json')
         with open(path, 'w') as f:
-            json.dump(data, f)
+            json.dump(data, f, default=_json_default)
         e = dict(env or {})
         e['TRACE_FILE'] = path
         kw.setdefault('spec', 'TraceSpec')
